@@ -652,6 +652,65 @@ fn check_inner(line: &str, res: &str, t: &[&str], mut m: Vec<String>) -> Vec<Str
             if f[0] == "ok" && got != full { m.push(format!("FAIL C07 print returned Ok but delivered {} of {} bytes", got.len(), full.len())); }
             if f[0] == "err" && !can_fail { m.push("FAIL C07 print failed although the sink never failed".into()); }
             if f[0] == "panic" { m.push("FAIL C07 print panicked".into()); }
+            // the same sink behaviour through the other routes to a writer:
+            //  * `write!(sink, "{}", value)` (Display) with the default options,
+            //  * a `Printer` object that is used again after the call: a second print on it delivers exactly the text
+            //    of the second value (after what the first call delivered) whatever happened to the first.
+            let mk = || crate::ops::SchedSink { sched: parse_sched(t[2]), got: vec![], last_intr: None, calls: 0, tripped: false };
+            if t[1] == "D" {
+                let mut sk = mk();
+                let r = std::panic::catch_unwind(std::panic::AssertUnwindSafe(|| { use std::io::Write; write!(&mut sk, "{}", v) }));
+                match r {
+                    Ok(r) => {
+                        if r.is_ok() != (f[0] == "ok") || sk.got != got { m.push(format!("FAIL C07 Display to the same sink: {} with {} bytes, to_writer: {} with {} bytes", if r.is_ok() { "ok" } else { "err" }, sk.got.len(), f[0], got.len())); }
+                    }
+                    Err(_) => m.push("FAIL C07 Display to a sink panicked".into()),
+                }
+            }
+            {
+                let second = Value::list(vec![Value::string("second \"attempt\""), Value::from(42), Value::keyword("k"), Value::from(vec![7u8, 8])]);
+                let mut sk = mk();
+                let r = std::panic::catch_unwind(std::panic::AssertUnwindSafe(|| {
+                    fn twice<W: std::io::Write, F: lexpr::print::Formatter>(mut pr: lexpr::Printer<W, F>, a: &Value, b: &Value) -> (bool, bool) {
+                        let r1 = pr.print(a);
+                        let r2 = pr.print(b);
+                        (r1.is_ok(), r2.is_ok())
+                    }
+                    if t[1] == "D" { twice(lexpr::Printer::new(&mut sk), &v, &second) } else { twice(lexpr::Printer::with_options(&mut sk, print_opts(t[1])), &v, &second) }
+                }));
+                if let Ok((ok1, ok2)) = r {
+                    let want2 = if t[1] == "D" { lexpr::to_vec(&second).unwrap() } else { lexpr::to_vec_custom(&second, print_opts(t[1])).unwrap() };
+                    if ok1 != (f[0] == "ok") || !sk.got.starts_with(&got) { m.push("FAIL C07 first print on a reusable Printer differs from to_writer".into()); }
+                    else {
+                        let rest = &sk.got[got.len()..];
+                        if !want2.starts_with(rest) || (ok2 && rest != &want2[..]) { m.push(format!("FAIL C07 a Printer used again after a {} print delivers {:?} for the next value instead of (a prefix of) {:?}", if ok1 { "successful" } else { "failed" }, String::from_utf8_lossy(rest), String::from_utf8_lossy(&want2))); }
+                    }
+                } else { m.push("FAIL C07 reusing a Printer panicked".into()); }
+            }
+        }
+        "sens" => {
+            // "each parser option changes the reading of exactly the tokens it names and nothing else": an option the
+            // outcome is sensitive to must be named by something in the text (necessary conditions, from the
+            // option documentation; the model side checks the exact `exercised` set of the frame theorem)
+            let data = unhex(t[3]);
+            let bits = res.split_whitespace().next().unwrap_or("").as_bytes().to_vec();
+            let has = |pat: &[u8]| data.windows(pat.len()).any(|w| w == pat);
+            let starts_token = |i: usize| i == 0 || matches!(data[i - 1], b' ' | b'\t' | b'\n' | b'\r' | 0x0c | b'(' | b')' | b'[' | b']' | b'"' | b';' | b'\'' | b'`' | b',' | b'@' | b'|');
+            let digit_initial = (0..data.len()).any(|i| data[i].is_ascii_digit() && starts_token(i));
+            let named: [(usize, bool, &str); 10] = [
+                (0, has(b":"), "colon-prefix keywords (no ':' in the input)"), (1, has(b":"), "colon-postfix keywords (no ':' in the input)"),
+                (2, has(b"#:"), "#: keywords (no '#:' in the input)"), (3, has(b"nil"), "the nil option (no 'nil' in the input)"),
+                (4, has(b"t"), "the t option (no 't' in the input)"), (5, has(b"[") || has(b"]"), "the bracket option (no bracket in the input)"),
+                (6, has(b"\""), "the string syntax (no '\"' in the input)"), (7, has(b"?"), "the character syntax (no '?' in the input)"),
+                (8, has(b"#%"), "the Racket #% option (no '#%' in the input)"), (9, digit_initial, "leading-digit symbols (no digit-initial token in the input)"),
+            ];
+            if bits.len() == 10 {
+                for (i, present, what) in named.iter() {
+                    if bits[*i] == b'1' && !present {
+                        m.push(format!("FAIL C08 the reading of {:?} under options {} changes with {}", String::from_utf8_lossy(&data), t[2], what));
+                    }
+                }
+            }
         }
         "rt" => {
             let (p, r, fast) = (t[1], t[2], t[3] == "1");
@@ -671,6 +730,12 @@ fn check_inner(line: &str, res: &str, t: &[&str], mut m: Vec<String>) -> Vec<Str
                     let s = std::str::from_utf8(&text).unwrap();
                     let a = lexpr::from_str(s).ok(); let b = lexpr::from_reader(&text[..]).ok(); let c = s.parse::<Value>().ok(); let d0 = lexpr::from_slice(&text).ok();
                     if a != d0 || b != d0 || c != d0 { m.push("FAIL C01 parse entry points disagree".into()); }
+                    // the io reader entry point on streams that deliver the text in pieces (short reads, Interrupted, BufReader)
+                    for src in ["i1", "i3", "j2", "I5", "i4096"] {
+                        let r2 = lexpr::from_reader(crate::ops::make_reader(src, &text)).ok();
+                        if r2 != d0 { m.push(format!("FAIL C01 from_reader on a stream delivering the printed text in pieces ({}) differs from from_slice", src)); break; }
+                    }
+                    if let Some(dis) = entry_points_disagree(&text, false) { m.push(format!("FAIL C01 entry points disagree: {}", dis)); }
                 }
             }
         }
@@ -899,6 +964,12 @@ fn check_inner(line: &str, res: &str, t: &[&str], mut m: Vec<String>) -> Vec<Str
             let f: Vec<&str> = res.split_whitespace().collect();
             if f.len() == 3 && f[0] == "R" {
                 if f[1] != f[2] { m.push(format!("FAIL C08 option getters {} disagree with the reader's behaviour {}", f[1], f[2])); }
+                // `with_keyword_syntaxes` SETS the recognised spellings to exactly the given ones
+                if t.len() > 3 && t[t.len() - 1].starts_with('K') {
+                    let given = &t[t.len() - 1][1..];
+                    let want: String = (0..3).map(|i| if given.contains(char::from(b'0' + i as u8)) { '1' } else { '0' }).collect();
+                    if &f[1][..3] != want { m.push(format!("FAIL C08 with_keyword_syntaxes({}) left the keyword spellings at {} (expected exactly {})", given, &f[1][..3], want)); }
+                }
                 // the two presets every family uses by name are what the crate's constructors return
                 if t.len() == 3 && ((t[2] == "elisp" && f[1] != R_ELISP) || (t[2] == "default" && f[1] != R_DEFAULT)) {
                     m.push(format!("FAIL C08 parse::Options::{}() is {} but the harness's constant for it is another option set", t[2], f[1]));
